@@ -53,9 +53,21 @@ def instrument(workdir, mode):
     return ov
 
 
+def modfile_args(workdir):
+    """when VERIF_REPO points at a scratch copy, build with a module file replacing to it"""
+    if os.path.realpath(REPO) == "/repo":
+        return []
+    mf = os.path.join(workdir, "go.mod")
+    if not os.path.exists(mf):
+        src = open(os.path.join(VERIF, "go.mod")).read().replace("=> /repo", "=> " + os.path.realpath(REPO))
+        open(mf, "w").write(src)
+        shutil.copy(os.path.join(VERIF, "go.sum"), os.path.join(workdir, "go.sum"))
+    return ["-modfile=" + mf]
+
+
 def build(pkg, workdir, overlay, race=False, tags="verif"):
     out = os.path.join(workdir, os.path.basename(pkg) + (".race" if race else ""))
-    cmd = [GO, "build", "-tags", tags, "-overlay", overlay, "-o", out]
+    cmd = [GO, "build"] + modfile_args(workdir) + ["-tags", tags, "-overlay", overlay, "-o", out]
     if race:
         cmd.insert(2, "-race")
     cmd.append(pkg)
